@@ -18,13 +18,13 @@ LEVEL = 'exploration'
 TECHNIQUE = ('Hypothesis-generated object graphs (trees, DAGs with shared sub-objects, back-patched cycles, custom '
              'objects) x build options, against a reference conversion; differential across the three builder entry points')
 RULE = ("A case is an object graph given as a node table: each node is a scalar, list, tuple, dict (str/int keys), "
-        "set/frozenset (of hashable scalars or scalar tuples, or of custom objects some of which carry equal data) or a custom object with attributes; lists, dicts and "
+        "set/frozenset (of hashable scalars or scalar tuples, or of custom objects some of which carry equal data) or a custom object with attributes (plain, or of a class that inherits class-level constants and a property over two levels); lists, dicts and "
         "objects may reference any node (so shared sub-objects and self-/mutual cycles at any depth arise by "
         "back-patching), tuples and sets reference earlier nodes; x dict strategy x list-edit mode x "
         "{check_for_cycles, ignore_cycles}. Oracle, acyclic graphs, for every entry point that supports the types "
         "(json.build_tree, BasicBuilder().build_tree, pydiff.build_tree): t.to_obj() equals the reference conversion "
         "(tuples -> lists, sets -> multisets) with strict type comparison; the entry points give == trees with equal "
-        "canonical values; every mapping and list node carries the flags the build options ask for, at every depth; a BasicBuilder subclass with its own handler for a tuple subclass is honoured after the base class was used, also for an unregistered subclass of that subclass (most specialised registered ancestor wins); every set converts to a multiset with as many children as members, pairwise == to the members' own conversions; t.copy() is == to t, has an equal to_obj() and shares no node object with t; shared "
+        "canonical values; every mapping and list node carries the flags the build options ask for, at every depth; a BasicBuilder subclass with its own handler for a tuple subclass is honoured after the base class was used, also for an unregistered subclass of that subclass (most specialised registered ancestor wins); to_obj() returns a value the caller may destroy without changing the next to_obj(); every custom object converts to its class name and exactly its public members (instance attributes plus every non-dunder name of its class and base classes), each converted as on its own; every set converts to a multiset with as many children as members, pairwise == to the members' own conversions; t.copy() is == to t, has an equal to_obj() and shares no node object with t; shared "
         "sub-objects must not raise a cycle error. Cyclic graphs with cycle checking on: the Builder entry points "
         "raise ValueError, or with ignore_cycles produce a tree containing a CyclicReference placeholder, within the "
         "loop budget; json.build_tree must terminate with an exception. Non-trivial: a graph with sharing or a cycle, "
@@ -58,6 +58,52 @@ class Obj:
     pass
 
 
+class ShapeBase:
+    """class-level data and a property that subclasses inherit without redefining them"""
+    units = 'cm'
+    sides = 4
+
+    @property
+    def label(self):
+        return 'shape'
+
+
+class MidShape(ShapeBase):
+    sides = 3           # overrides one inherited constant, adds another
+    closed = True
+
+
+class DerivedObj(MidShape):
+    """custom object whose public state is partly inherited from two levels of base classes"""
+    pass
+
+
+def public_state(o):
+    """independent statement of what an object's public members are: the instance's own attributes plus every non-dunder
+    name defined by its class or any base class (the most derived definition wins through getattr)"""
+    names = set(vars(o))
+    for cls in type(o).__mro__:
+        if cls is object:
+            continue
+        names.update(vars(cls))
+    return {n: getattr(o, n) for n in names if not n.startswith('__')}
+
+
+def scribble(v):
+    """destroys a value returned by to_obj() in place: whatever the caller does to it must not reach the tree"""
+    if isinstance(v, list):
+        for x in v:
+            scribble(x)
+        v.clear()
+    elif isinstance(v, dict):           # includes Counter / HashableCounter
+        try:
+            for x in list(v.values()):
+                scribble(x)
+            v.clear()
+        except (TypeError, AttributeError):
+            pass
+
+
 @st.composite
 def graphs(draw, max_nodes=8, allow_cycles=True, allow_obj=True):
     n = draw(st.integers(1, max_nodes))
@@ -66,7 +112,7 @@ def graphs(draw, max_nodes=8, allow_cycles=True, allow_obj=True):
     for i in range(n):
         kinds = ['scalar', 'scalar', 'list', 'list', 'dict', 'dict', 'tuple', 'tuple', 'set']
         if allow_obj:
-            kinds += ['obj', 'obj', 'oset']
+            kinds += ['obj', 'obj', 'oset', 'dobj']
         k = draw(st.sampled_from(kinds))
         hi = n - 1 if cyc else max(i - 1, -1)        # acyclic graphs only reference earlier nodes (sharing is still possible)
         refs = st.integers(0, hi) if hi >= 0 else None
@@ -83,9 +129,12 @@ def graphs(draw, max_nodes=8, allow_cycles=True, allow_obj=True):
         elif k == 'set':
             elems = draw(st.lists(st.one_of(HSCAL, st.lists(HSCAL, max_size=2).map(lambda t: ['t'] + t)), max_size=3))
             nodes.append([draw(st.sampled_from(['set', 'frozenset'])), elems])
+        elif k == 'dobj':
+            attrs = draw(st.lists(st.sampled_from(['x', 'y', 'name', 'units']), max_size=2, unique=True))
+            nodes.append(['dobj', [[a, draw(refs)] for a in attrs] if refs is not None else []])
         elif k == 'oset':
             # a set of custom objects (hashable by identity): distinct members may carry equal data
-            earlier = [j for j in range(i) if nodes[j][0] == 'obj']
+            earlier = [j for j in range(i) if nodes[j][0] in ('obj', 'dobj')]
             if not earlier:
                 nodes.append(['obj', []])
             else:
@@ -139,17 +188,17 @@ def valid(case):
         elif k == 'tuple':
             if not all(isinstance(r, int) and 0 <= r < i for r in v):
                 return False
-        elif k in ('dict', 'obj'):
+        elif k in ('dict', 'obj', 'dobj'):
             if not all(isinstance(p, list) and len(p) == 2 and isinstance(p[1], int) and 0 <= p[1] < n for p in v):
                 return False
             if len({(type(p[0]).__name__, p[0]) for p in v}) != len(v):
                 return False
-            if k == 'obj' and not all(isinstance(p[0], str) and p[0].isidentifier() for p in v):
+            if k in ('obj', 'dobj') and not all(isinstance(p[0], str) and p[0].isidentifier() for p in v):
                 return False
         elif k in ('set', 'frozenset'):
             pass
         elif k == 'oset':
-            if not v or not all(isinstance(r, int) and 0 <= r < i and nodes[r][0] == 'obj' for r in v):
+            if not v or not all(isinstance(r, int) and 0 <= r < i and nodes[r][0] in ('obj', 'dobj') for r in v):
                 return False
         else:
             return False
@@ -168,6 +217,8 @@ def materialise(nodes):
             objs[i] = {}
         elif k == 'obj':
             objs[i] = Obj()
+        elif k == 'dobj':
+            objs[i] = DerivedObj()
         elif k in ('set', 'frozenset'):
             el = [tuple(e[1:]) if isinstance(e, list) else e for e in v]
             objs[i] = set(el) if k == 'set' else frozenset(el)
@@ -181,7 +232,7 @@ def materialise(nodes):
         elif k == 'dict':
             for kk, r in v:
                 objs[i][kk] = objs[r]
-        elif k == 'obj':
+        elif k in ('obj', 'dobj'):
             for a, r in v:
                 setattr(objs[i], a, objs[r])
     return objs
@@ -199,7 +250,7 @@ def reachable(nodes, root):
         k, v = nodes[i]
         if k in ('list', 'tuple', 'oset'):
             stack.extend(v)
-        elif k in ('dict', 'obj'):
+        elif k in ('dict', 'obj', 'dobj'):
             stack.extend(r for _, r in v)
     return seen
 
@@ -214,7 +265,7 @@ def graph_facts(nodes, root):
         k, v = nodes[i]
         if k in ('list', 'tuple', 'oset'):
             return list(v)
-        if k in ('dict', 'obj'):
+        if k in ('dict', 'obj', 'dobj'):
             return [r for _, r in v]
         return []
 
@@ -252,8 +303,9 @@ def expected(o, memo=None):
         return {k: expected(v) for k, v in o.items()}
     if isinstance(o, (set, frozenset)):
         return ('multiset', sorted(repr(expected(x)) for x in o))
-    if isinstance(o, Obj):
-        return ('obj', {a: expected(getattr(o, a)) for a in sorted(vars(o))})
+    if isinstance(o, (Obj, ShapeBase)):
+        st_ = public_state(o)
+        return ('obj', type(o).__name__, {a: expected(st_[a]) for a in sorted(st_)})
     return o
 
 
@@ -367,7 +419,7 @@ def check(case):
     ds, le = case.get('ds', 'auto'), case.get('le', 'on')
     ignore = case.get('cycles') == 'ignore'
     opts = common.build_options(ds, le, api_none=bool(case.get('api_none')), check_for_cyces=True, ignore_cycles=ignore)
-    has_obj = bool(kinds & {'obj', 'oset'})
+    has_obj = bool(kinds & {'obj', 'oset', 'dobj'})
     has_set = bool(kinds & {'set', 'frozenset', 'oset'})
     entries = [('pydiff', lambda: pydiff.build_tree(o, opts))]
     if not has_obj:
@@ -439,6 +491,13 @@ def check(case):
             got = norm(t.to_obj())
         if not strict_eq(got, exp):
             out.fail(f'to_obj-differs:{name}', f"{name}: to_obj() = {got!r}, original converts to {exp!r}")
+        else:
+            # what a caller does to the returned value must not change what the tree says next time
+            with guard(f'{name}.to_obj twice'):
+                scribble(t.to_obj())
+                again = norm(t.to_obj())
+            if not strict_eq(again, exp):
+                out.fail(f'to_obj-not-fresh:{name}', f"{name}: after the caller emptied the value returned by to_obj(), to_obj() = {again!r}, expected {exp!r}")
     if not has_obj and not has_set and 'tuple' in kinds:
         # a subclass handler for tuples, used *after* the base class has already converted this object
         with guard('TaggingBuilder.build_tree'):
@@ -448,6 +507,30 @@ def check(case):
             got = norm(tt.to_obj())
         if not strict_eq(got, expected_tagged(o)):
             out.fail('subclass-handler-ignored', f"a BasicBuilder subclass with its own tuple builder produced {got!r}, expected {expected_tagged(o)!r}")
+    # a custom object converts to its class name plus *all* of its public state, inherited class-level members included
+    for i in sorted(reachable(nodes, root)):
+        if nodes[i][0] not in ('obj', 'dobj'):
+            continue
+        with guard('pydiff.build_tree of a custom object and of its members'):
+            to = pydiff.build_tree(objs[i], opts)
+            want = public_state(objs[i])
+            have = {k.object: v for k, v in to.attrs.items()} if hasattr(to, 'attrs') else None
+            bad = None
+            if have is None:
+                bad = f"converts to a {type(to).__name__}"
+            elif set(have) != set(want):
+                bad = f"has members {sorted(have)}, the object's public members are {sorted(want)}"
+            elif to.class_name.object != type(objs[i]).__name__:
+                bad = f"is named {to.class_name.object!r}"
+            else:
+                for nme in sorted(want):
+                    if not (have[nme] == pydiff.build_tree(want[nme], opts)):
+                        bad = f"member {nme} converts differently inside the object than on its own"
+                        break
+        if bad:
+            out.fail('object-state-lost:pydiff', f"pydiff: the tree of a {type(objs[i]).__name__} object {bad}")
+            break
+        out.label('object-state-checked')
     # a set converts to the multiset of its members' conversions: same number of members, pairwise == (whatever the members are)
     for i in sorted(reachable(nodes, root)):
         if nodes[i][0] not in ('set', 'frozenset', 'oset'):
